@@ -69,7 +69,7 @@ PROPS["C05"] = {
             "style, number spelling); a malformed stream; and a separate stream of raw bit patterns. Compared: output bytes of MarshalCanonical on the "
             "text, on the decoded Go value, and of canonicalizing the output again. Non-trivial = accepted input; distinct = distinct input text/bits.",
     "technique": "Lean 4 theorems on the JCS model (sorting, permutation invariance, escaping) + differential correspondence on bytes",
-    "level_text": "Proved in Lean (Props/C05Spelling.lean): texts that differ in insignificant whitespace and in the escape spelling of strings canonicalize to identical bytes (spelling_irrelevant_ints). Proved in Lean (Lemmas/NumInt*.lean, Props/C05Num.lean): an integer below 2^53 in magnitude is printed as its decimal digits (integer_prints_as_digits: IEEE-754 double of the literal, shortest digits, ES6 notation, all by exact Nat arithmetic) and read back as the very literal. Proved in Lean (Lemmas/RoundTrip.lean, RoundTripNum.lean): the strict reader undoes the printer on every value whose numbers are such integers (or that has no numbers), so parsing the RFC 8785 encoding of such a value yields its normal form (canonical_text_reads_back_ints; escapes, nesting and member order included); the normal form is its own normal form, canonicalizing canonical text gives the same text (normalize_idempotent_ints, canonical_text_is_fixed_ints, transform_fixed_point_partial); the driver evaluates the hypothesis on every case (label ints-theorem-premises-hold). Proved in Lean for all values: canonical objects have strictly UTF-16-sorted members and the order is a strict total order on names "
+    "level_text": "Proved in Lean (Props/C05Spelling.lean): texts that differ in insignificant whitespace and in the escape spelling of strings canonicalize to identical bytes (spelling_irrelevant_ints), and so do texts that in addition spell integer-valued numbers differently - 1E3, 1.0e3, 10000e-1, 1000 (equivalent_texts_identical_bytes; Lemmas/NumSpelling.lean: the double of mant*10^e is the double of the integer it denotes). Proved in Lean (Lemmas/NumInt*.lean, Props/C05Num.lean): an integer below 2^53 in magnitude is printed as its decimal digits (integer_prints_as_digits: IEEE-754 double of the literal, shortest digits, ES6 notation, all by exact Nat arithmetic) and read back as the very literal. Proved in Lean (Lemmas/RoundTrip.lean, RoundTripNum.lean): the strict reader undoes the printer on every value whose numbers are such integers (or that has no numbers), so parsing the RFC 8785 encoding of such a value yields its normal form (canonical_text_reads_back_ints; escapes, nesting and member order included); the normal form is its own normal form, canonicalizing canonical text gives the same text (normalize_idempotent_ints, canonical_text_is_fixed_ints, transform_fixed_point_partial); the driver evaluates the hypothesis on every case (label ints-theorem-premises-hold). Proved in Lean for all values: canonical objects have strictly UTF-16-sorted members and the order is a strict total order on names "
                   "(UTF-16 encoding injective); the canonical form does not depend on input member order (at top level or nested); duplicate names are refused; "
                   "escaping is minimal with the RFC 8785 forms; equivalent values give identical bytes; the ES6 notation table. NOT proved: the parse∘print round trip "
                   "(fixed point / same value) for values with fractions, exponents or integers from 2^53 on, and shortest-digit correctness of the number formatter on those; these rest on the correspondence stream, which compares "
@@ -404,7 +404,7 @@ PROPS["C02"] = {
 }
 
 PROPS["C03"] = {
-    "theorem_modules": ["Sidetree.Props.C03", "Sidetree.Props.C05Spelling"],
+    "theorem_modules": ["Sidetree.Props.C03", "Sidetree.Props.C05Spelling", "Sidetree.Props.C03Values"],
     "prescribes": "Sidetree.Parser.parse (Props.C03.create_self_certifying, suffix_binds, delta_binds)",
     "obligations": _PARSER_OBL + [{"name": "C03_uniqueSuffix", "facts": ["uniqueSuffixCalls"]},
                                   {"name": "C06_validCompare", "facts": ["isValidCompare", "isValidCalls"]}],
@@ -416,7 +416,7 @@ PROPS["C03"] = {
             "first or the second; each in canonical form and two re-spellings (member order at every level, whitespace, escapes, number spellings), and with one field modified "
             "(recovery commitment, anchor origin, type, delta with and without the matching hash). Compared: accept/reject, suffix, id, anchor origin, validator calls.",
     "technique": "Lean 4 theorems (suffix formula, hash binding with explicit collision alternative, member-order invariance) + differential correspondence",
-    "level_text": "Proved in Lean (Props/C05Spelling.lean, Lemmas/Whitespace.lean, EscapeSpelling.lean): request texts that spell one JSON value with different insignificant whitespace and different escape spellings of strings and member names (numbers: plain integers below 2^53) are parsed to the same operation - same suffix, delta, signed data - for the same size (request_spelling_irrelevant); integer-valued number spellings normalize to the plain integer (Lemmas/NumSpelling.lean, normalize_int_valued). Proved in Lean: every accepted create has suffix = model multihash of the re-marshalled suffix data under the first configured algorithm, id = namespace:suffix, and outside "
+    "level_text": "Proved in Lean (Props/C03Values.lean): the binding theorems hold for values, not only canonical bytes - two suffix data with one suffix agree in delta hash, recovery commitment, type and (up to member order inside it) anchor origin, and are equal outright when the anchor origin is absent or a string, or the hash family has an explicit collision (suffix_binds_value, suffix_binds_equal); two deltas validating against one hash have the same update commitment and the same patches up to normal form (delta_binds_value). Proved in Lean (Props/C05Spelling.lean, Lemmas/Whitespace.lean, EscapeSpelling.lean): request texts that spell one JSON value with different insignificant whitespace and different escape spellings of strings and member names (numbers: plain integers below 2^53) are parsed to the same operation - same suffix, delta, signed data - for the same size (request_spelling_irrelevant); integer-valued number spellings normalize to the plain integer (Lemmas/NumSpelling.lean, normalize_int_valued). Proved in Lean: every accepted create has suffix = model multihash of the re-marshalled suffix data under the first configured algorithm, id = namespace:suffix, and outside "
                   "batch mode a delta that validates against the recorded delta hash; equal suffixes force equal canonical suffix data, and equal delta hashes equal canonical deltas, or "
                   "an explicit hash collision; the decoding of a create request does not depend on top-level member order. Invariance under whitespace/escape/number spelling of the "
                   "text holds because the decoder reads the parsed value; nested member order rests on the stream.",
